@@ -78,7 +78,9 @@ fn run_bestarch(a: &[Sx]) -> String {
             }
             other => panic!("unknown op {other}"),
         };
+        let panicked = r.is_none();
         outs.push(r.unwrap_or("panic".into()));
+        if panicked { break; } // the state may be half-updated after a panic: the history ends here
     }
     tagged("outs", outs)
 }
